@@ -9,6 +9,7 @@ import cmp as cmpu
 import conv
 import refops
 import elem
+import excv
 
 AAP = 'cntgs::detail::AllocatorAwarePointer<.*>::'
 AAP_UNITS = [
@@ -125,6 +126,21 @@ def units(tier, seed=0):
         for name, h, fn, props in AAP_UNITS:
             us.append(dict(id='aap.F%d.%s' % (f, name), tu='aap', defines=('VF_F=%d' % f,), template='aap.tpl.c', vars={'F': f},
                            entry=h, enforce='@F{%s}' % fn, replace=[], props=props, layer='allocator.hpp', kind='proof'))
+    # C17: allocation failure (exception-enabled IR, the allocation hook fails nondeterministically at every call)
+    aap_tpl = open(os.path.join(os.path.dirname(os.path.abspath(__file__)), 'contracts', 'aap.tpl.c')).read()
+    AAP_EXC = {
+        'F_CTOR_SIZE': ['__CPROVER_ensures(cntgs_exc == 0 || (g_live_blocks == __CPROVER_old(g_live_blocks) && g_alloc_calls == __CPROVER_old(g_alloc_calls))) /* C17: a failed allocation leaves nothing allocated */'],
+        'F_CTOR_COPY': ['__CPROVER_ensures(cntgs_exc == 0 || (g_live_blocks == __CPROVER_old(g_live_blocks) && g_alloc_calls == __CPROVER_old(g_alloc_calls))) /* C17: a failed allocation leaves nothing allocated and the source unchanged */'],
+        'F_COPY_ASSIGN': ['__CPROVER_ensures(cntgs_exc == 0 || (WF(self) && g_live_blocks == __CPROVER_old(g_live_blocks) - ((PTR(self) == 0 && __CPROVER_old(PTR(self)) != 0) ? 1 : 0))) /* C17: after a failed allocation the target is still valid (owns a live block or none: destructible, no double free) and nothing is leaked */'],
+    }
+    for f in ([0, 1, 3] if tier != 'thorough' else range(16)):
+        txt = excv.exc_variant(aap_tpl, AAP_EXC)
+        for name, h, fn, props in AAP_UNITS:
+            if name not in ('ctor_size', 'ctor_copy', 'copy_assign'):
+                continue
+            us.append(dict(id='exc.aap.F%d.%s' % (f, name), tu='aap', defines=('VF_F=%d' % f,), exceptions=True, template_text=txt, vars={'F': f},
+                           entry=h, enforce='@F{%s}' % fn, replace=[], props=['C17'], layer='allocator.hpp', kind='proof', cdefs=['VF_ALLOC_MAY_FAIL=1'],
+                           config='allocation failure: AllocatorAwarePointer, allocator traits F=%d' % f))
     for spec in layout.catalogue(tier, seed):
         L = layout.Layout(spec)
         txt = layout.c_unit(L)
